@@ -6,6 +6,7 @@ CONSTANTS
   SaltIds = {}
   SaltWith = {}
   KShifts <- KS_Dec
+  SaltKShifts = {0}
   InitSeq <- I_Few
   InitPatterns <- IP_Many
   SolidInits <- SI_None
